@@ -598,15 +598,17 @@ func (st *State) event(name string, pos token.Pos, args ...Term) {
 func (st *State) countEvents(name string) Term {
 	n := 0
 	unc := false
+	// "kind:*" counts every event of that kind (go:*, send:*, ...)
+	wild := strings.HasSuffix(name, ":*")
 	for _, e := range st.trace {
 		if strings.HasPrefix(e.Name, "loop*") {
 			unc = true
 		}
-		if e.Name == name {
+		if e.Name == name || (wild && strings.HasPrefix(e.Name, name[:len(name)-1])) {
 			n++
 		}
 	}
-	if unc && st.ctx.eventInLoop(name) {
+	if unc && (wild || st.ctx.eventInLoop(name)) {
 		t := st.ctx.freshConst("cnt!"+name, SInt)
 		st.assume(Ge(t, I(int64(n))))
 		return t
